@@ -26,11 +26,6 @@ Proof.
     + intros [H | (x & Hx & Hy)]; [exists a; auto | exists x; auto].
     + intros (x & [-> | Hx] & Hy); [left; auto | right; exists x; auto].
 Qed.
-Lemma closure_acc f fuel acc fr x : In x acc -> In x (closure f fuel acc fr).
-Proof.
-  revert acc fr. induction fuel as [| k IH]; simpl; intros acc fr H; auto.
-  destruct (filter _ _) eqn:E; auto. apply IH. apply in_or_app. left. exact H.
-Qed.
 Lemma iter_n_fix f n is x : In x is -> In x (f x) -> In x (iter_n f n is).
 Proof.
   revert is. induction n as [| k IH]; simpl; intros is H1 H2; auto.
@@ -82,13 +77,13 @@ Proof.
   - left. reflexivity.
   - (* literal *) destruct l; [| discriminate]. cbn [lit_pre length]. left. lia.
   - (* capture *) auto.
-  - (* star *) apply closure_acc. left. reflexivity.
-  - (* plus *) apply closure_acc. auto.
+  - (* star *) apply iter_upto_acc. left. reflexivity.
+  - (* plus *) apply iter_upto_acc. auto.
   - (* quest *) apply in_nunion. left. left. reflexivity.
   - (* repeat *)
     assert (Hs : In i (iter_n (ends w r) mn [i])).
     { destruct mn as [| k]; [left; reflexivity |]. apply iter_n_fix; [left; reflexivity | auto]. }
-    destruct mx; [apply iter_upto_acc | apply closure_acc]; exact Hs.
+    destruct mx; apply iter_upto_acc; exact Hs.
   - (* concat *)
     assert (G : forall is, In i is ->
               In i ((fix go (l : list re) (is : list nat) : list nat :=
